@@ -163,6 +163,107 @@ def item_bmc(it):
   return res.r
 
 
+REPLAY_STEP = '''
+sys.path.insert(0, '/verif')
+import importlib
+from vlib.rtlreplay import run_trace
+from specs.fifo_spec import PyFifo
+from specs.queue_defs import FAMILIES, STYLE, msg_type
+fam, kind, n = %(fam)r, %(kind)r, %(n)d
+mod, classes, style, _ = FAMILIES[fam]
+cls = getattr(importlib.import_module(mod), classes[kind]); st = STYLE[style]; T = msg_type('8')
+pre, cyc, seq = %(pre)r, %(cyc)r, %(seq)r
+obs = [x for x in (st['enq_rdy'], st.get('deq_rdy'), st['deq_msg'], st['count']) if x]
+tr = run_trace(lambda: cls(T, n), pre, [{'s.reset': cyc['reset'], st['eo']: cyc['eo'], st['msg']: cyc['msg'], st['do']: cyc['do']}, {'s.reset': 0, st['eo']: 0, st['msg']: 0, st['do']: 0}], obs)
+spec = PyFifo(kind, n); spec.q = list(seq)
+e = spec.cycle(cyc['reset'], cyc['eo'], cyc['msg'], cyc['do'])
+got = tr[0]['comb']; bad = []
+if not cyc['reset']:
+  if got[st['enq_rdy']] != e['enq_rdy']: bad.append(f"enq_rdy={got[st['enq_rdy']]} specified {e['enq_rdy']}")
+  if st.get('deq_rdy') and got[st['deq_rdy']] != e['deq_rdy']: bad.append(f"deq_rdy={got[st['deq_rdy']]} specified {e['deq_rdy']}")
+  if e['deq_rdy'] and got[st['deq_msg']] != e['deq_msg']: bad.append(f"deq msg={got[st['deq_msg']]:#x} specified {e['deq_msg']:#x}")
+  if got[st['count']] != e['count']: bad.append(f"count={got[st['count']]} specified {e['count']}")
+e2 = spec.cycle(0, 0, 0, 0)      # next cycle: the abstract content must be what the specification says
+g2 = tr[1]['comb']
+if g2[st['count']] != e2['count']: bad.append(f"count after the step={g2[st['count']]} specified {e2['count']}")
+if e2['deq_rdy'] and g2[st['deq_msg']] != e2['deq_msg']: bad.append(f"head after the step={g2[st['deq_msg']]:#x} specified {e2['deq_msg']:#x}")
+if bad: reproduced(f"{fam}.{classes[kind]}(n={n}) one step from content {seq} (registers {pre}) with {cyc}: " + "; ".join(bad))
+'''
+
+
+def item_step(it):
+  """one inductive step from ANY state satisfying the representation invariant (covers histories of any length)"""
+  cover.start()
+  fam, kind, n = it['fam'], it['kind'], it['n']
+  res = Result(f"step/{fam}/{kind}/n={n}")
+  top, st, resets, W = build(fam, kind, n, '8')
+  sim = SymSim(top)
+  regs_name = 's.dpath.queue.regs' if fam == 'queues' else 's.dpath.rf.regs'
+  probe = sim.symbolic_state()
+  head, tail, count = probe['s.ctrl.head'], probe['s.ctrl.tail'], probe['s.ctrl.count']
+  regs = [probe[f'{regs_name}[{i}]'] for i in range(n)]
+  reset, eo, do, msg = probe['s.reset'], probe[st['eo']], probe[st['do']], probe[st['msg']]
+  ww = max(head.size(), count.size()) + 2
+  zx = lambda x: z3.ZeroExt(ww - x.size(), x) if x.size() < ww else x
+  def inv(h, t, c):
+    return z3.And(z3.ULE(h, n - 1), z3.ULE(t, n - 1), z3.ULE(c, n), z3.URem(zx(h) + zx(c), z3.BitVecVal(n, ww)) == zx(t))
+  def items_of(h, rg):
+    out = []
+    for i in range(n):
+      idx = z3.URem(zx(h) + i, z3.BitVecVal(n, ww))
+      e = rg[n - 1]
+      for k in reversed(range(n - 1)): e = z3.If(idx == k, rg[k], e)
+      out.append(e)
+    return out
+  spec = Z3Fifo(kind, n, W).from_terms(items_of(head, regs), z3.ZeroExt(LW - count.size(), count))
+  pre_items = list(spec.items); pre_len = spec.len
+  o = spec.cycle(reset == 1, eo == 1, msg, do == 1)
+  base = [inv(head, tail, count), z3.Implies(reset == 1, z3.And(eo == 0, do == 0))]
+  if st['legal']:
+    base.append(z3.Implies(eo == 1, o['enq_rdy']))
+    if st.get('deq_rdy'): base.append(z3.Implies(do == 1, o['deq_rdy']))
+  b1 = lambda b: z3.If(b, z3.BitVecVal(1, 1), z3.BitVecVal(0, 1))
+
+  def run():
+    sim.symbolic_state()
+    sim.top.sim_eval_combinational()
+    out = dict(enq_rdy=sim.sig_bv(st['enq_rdy']), deq_msg=sim.sig_bv(st['deq_msg']), count=sim.sig_bv(st['count']))
+    if st.get('deq_rdy'): out['deq_rdy'] = sim.sig_bv(st['deq_rdy'])
+    sim.top.sim_tick()
+    post = dict(head=sim.bv('s.ctrl.head'), tail=sim.bv('s.ctrl.tail'), count=sim.bv('s.ctrl.count'), regs=[sim.bv(f'{regs_name}[{i}]') for i in range(n)])
+    return out, post
+  for pc, out, exc in Explorer(base_pc=base, max_paths=100).paths(run):
+    res['states'] += 1; res['transitions'] += len(pc); res['obligations'] += 1
+    full = base + pc
+    if exc is not None: goal = z3.BoolVal(False)
+    else:
+      ov, post = out
+      nr = reset == 0
+      g = [z3.Implies(nr, ov['enq_rdy'] == b1(o['enq_rdy'])), z3.Implies(nr, z3.ZeroExt(LW - ov['count'].size(), ov['count']) == o['count'])]
+      if 'deq_rdy' in ov: g.append(z3.Implies(nr, ov['deq_rdy'] == b1(o['deq_rdy'])))
+      g.append(z3.Implies(z3.And(nr, o['deq_rdy']), ov['deq_msg'] == o['deq_msg']))
+      g.append(inv(post['head'], post['tail'], post['count']))
+      g.append(z3.ZeroExt(LW - post['count'].size(), post['count']) == spec.len)
+      pit = items_of(post['head'], post['regs'])
+      for i in range(n): g.append(z3.Implies(z3.UGT(spec.len, i), pit[i] == spec.items[i]))
+      goal = z3.And(*g)
+    v, m = prove(full, goal)
+    if v == 'unsat': res['discharged'] += 1; res['distinct'].append(f"{res['name']}#{res['states']}")
+    elif v == 'sat':
+      gv = lambda x: m.eval(x, model_completion=True).as_long()
+      ln = gv(pre_len)
+      pre = {'s.ctrl.head': gv(head), 's.ctrl.tail': gv(tail), 's.ctrl.count': gv(count)}
+      for i in range(n): pre[f'{regs_name}[{i}]'] = gv(regs[i])
+      res['violations'].append(dict(key=f"{fam}.{FAMILIES[fam][1][kind]}:step", what=f"{res['name']}: one step from a state satisfying the invariant leaves the FIFO specification" + (f" ({type(exc).__name__}: {exc})" if exc else ''),
+                                    replay=REPLAY_STEP % dict(fam=fam, kind=kind, n=n, pre=pre, cyc=dict(reset=gv(reset), eo=gv(eo), msg=gv(msg), do=gv(do)), seq=[gv(x) for x in pre_items[:ln]])))
+    else: res['inconclusive'].append(f"solver unknown: {m}")
+    if exc is None and not res['twins_expected']:
+      res['twins_expected'] = 1
+      if prove(full, z3.Not(z3.And(eo == 1, do == 1, reset == 0)))[0] == 'sat': res['twins_sat'] = 1
+  res['samples'].append(f"{res['name']}: any (head, tail, count, registers) with head,tail <= n-1, count <= n, tail == (head+count) mod n; abstraction = registers read from head")
+  return res.r
+
+
 REPLAY_CL = '''
 sys.path.insert(0, '/verif')
 from specs.cl_harness import run_harness
@@ -257,7 +358,7 @@ def item_cl(it):
 
 
 def dispatch(it):
-  return {'bmc': item_bmc, 'cl': item_cl}[it['kind_']](it)
+  return {'bmc': item_bmc, 'cl': item_cl, 'step': item_step}[it['kind_']](it)
 
 
 def main():
@@ -275,6 +376,10 @@ def main():
   for kind in ('normal', 'pipe', 'bypass'):
     items.append(dict(kind_='bmc', fam='enrdy1', kind=kind, n=1, mt='8', k=5 if tier == 'quick' else 7))
   items.append(dict(kind_='bmc', fam='enrdy2', kind='bypass', n=2, mt='8', k=6 if tier == 'quick' else 8))
+  for fam in ('queues', 'stream'):
+    for kind in ('normal', 'pipe', 'bypass'):
+      for n in ([2, 3, 4] if tier == 'quick' else [2, 3, 4, 5, 7, 8]):
+        items.append(dict(kind_='step', fam=fam, kind=kind, n=n, mt='8', k=1))
   for kind in ('normal', 'pipe', 'bypass'):
     for n in ([1, 2] if tier == 'quick' else [1, 2, 3]):
       items.append(dict(kind_='cl', kind=kind, n=n, mt='16', k=2 * n + 1 if n < 3 else 6))
@@ -284,7 +389,7 @@ def main():
   chk.bounds = dict(capacities=ns, cycles='2n+2 (quick) / 2n+3 (thorough) after reset', message='8 bits, one 12-bit struct (nested list field), 32 bits (thorough)',
                     reset='symbolic every cycle for the queues.py and stream families; power-on only for enrdy_queues (their full bit is a Reg without reset)')
   chk.outside = ['capacities above the bound', 'valrdy_queues.py (does not import on this tree: InValRdyIfc no longer exists)',
-                 'histories longer than the cycle bound (no inductive argument is made here)']
+                 'histories longer than the cycle bound for the 1-entry, enrdy and CL queues (the N-entry queues.py / stream families additionally have an inductive step)']
   chk.assumptions = ['environment offers nothing while reset is high', 'en/rdy callers obey the protocol: en only when the (specified) rdy is high',
                      'scheduler = DynamicSchedulePass']
   chk.finish(rule="one BMC item per (family, kind, capacity, message type): all offers/messages/resets of all cycles symbolic, one obligation per outer path = "
